@@ -34,7 +34,7 @@ ASSUMPTIONS = [
   "open (non-teletext) subtitles: colour before any colour code and after a newline not judged; italics/underline after a newline may persist or reset",
   "boxing (0Ah/0Bh, 84h/85h): no effect on text presence judged; background after a boxing code not judged; mosaic/conceal/reserved codes: subtitle not judged",
   "green may be #00FF00 or #008000; JC = 0: alignment not judged; cumulative members may share one paragraph or be separate",
-  "vertical position: only displayAlign in {before, after}, region inside the safe area when VP..VP+rows-1 fits the documented row count, and vertical order of anchors (a larger VP is never placed above a smaller one; two fitting VP >= 1 never coincide; VP 0 and 1 may) for equal-shape subtitles with the same displayAlign; anchor side judged away from the middle of the row grid in force (rows entirely above 40 % of the grid: top-anchored; VP below 60 %: bottom-anchored; the reader's own rule is VP < rows // 2); no exact coordinates, no double-height geometry",
+  "vertical position: only displayAlign in {before, after}, region inside the safe area when VP..VP+rows-1 fits the documented row count, and vertical order of anchors (a larger VP is never placed above a smaller one; two fitting VP >= 1 never coincide; VP 0 and 1 may) for equal-shape subtitles with the same displayAlign; anchor side judged away from the middle of the row grid in force (rows entirely above 40 % of the grid: top-anchored; VP below 60 %: bottom-anchored; the reader's own rule is VP < rows // 2); no exact coordinates; double-height geometry only as the order of bottom anchors by last occupied row (VP + newline codes + 1; equal last rows, equal anchors) for text fields whose newline runs are all even",
   "files with a CS sequence other than 01 02* 03 (per set): only 'the reader does not crash' is judged (abstain:cs-irregular); a regular set whose first member precedes the programme start IS judged (remaining members at their own times)",
   "each block's text field ends at its first unused-space code (8Fh); the blocks of a subtitle are then concatenated",
   "extension blocks whose CS/TCI/TCO differ from the first block, invalid time-code labels, TCO < TCI, unknown DFC/CCT: not judged; differing VP/JC inside a chain: layout not judged",
@@ -48,7 +48,7 @@ REQUIRED = ["files", "corpus:files", "table:files", "probe:isd", "cmp:chars", "c
             "feat:diacritic-pair", "feat:control", "feat:newline", "feat:space-run",
             "dfc:STL25.01", "dfc:STL30.01", "dfc:STL24.01", "dfc:STL50.01", "dfc:STL23.01",
             "cct:00", "cct:01", "cct:02", "cct:03", "cct:04", "dsc:teletext", "dsc:open",
-            "cfg:start:None", "cfg:start:TCP", "cfg:start:literal", "cfg:rows:None", "cfg:rows:MNR", "cfg:rows:int", "cmp:anchor", "cmp:split-equivalence"]
+            "cfg:start:None", "cfg:start:TCP", "cfg:start:literal", "cfg:rows:None", "cfg:rows:MNR", "cfg:rows:int", "cmp:anchor", "cmp:split-equivalence", "cmp:last-row-pairs", "cmp:last-row-equal"]
 SHARD_TIMEOUT = {"quick": 900, "thorough": 5400}
 
 CORPUS_DIR = "src/test/resources/stl"
@@ -776,6 +776,73 @@ def classify_extra(fc: FileCheck, o: ObsP, t, info, interp, off):
        key=tuple(s.index for s in near))
 
 
+def _even_newline_runs(tf: bytes):
+  """Double-height text field in the regular shape: no newline code at either end, every run of newline codes even
+  (two per double-height row). -> number of newline codes, or None."""
+  if not tf or tf[0] == 0x8A or tf[-1] == 0x8A:
+    return None
+  n = 0
+  for run in re.findall(b"\x8a+", tf):
+    if len(run) % 2:
+      return None
+    n += len(run)
+  return n
+
+
+def last_row_check(fc: FileCheck, doc, timing):
+  """Teletext double-height subtitles (and the single-height ones beside them): a bottom-anchored region ends at the last
+  row the subtitle occupies - VP + newline codes + 1 for double height (each row is two teletext rows, each empty
+  double-height row two more newline codes), VP + newline codes for single height. Judged as an order: equal last rows,
+  equal anchors; a lower last row, a strictly lower anchor. No coordinates."""
+  from ttconv.isd import ISD
+  if not fc.rf.teletext or fc.rows_cfg is None:
+    return
+  seen = []
+  for s, tm in zip(fc.rf.subs, timing):
+    if tm[0] != "ok" or tm[2] <= tm[1] or s.comment or s.cum_set is not None or s.inner_filler or s.layout_irregular or len(s.readings) != 1:
+      continue
+    lines, fl = s.readings[0]
+    if fl["opaque"] or s.vp < 1 or len(s.tf_variants) != 1 or not fc.sub_rows[s.index]:
+      continue
+    if fl["double_height"]:
+      nn = _even_newline_runs(s.tf_variants[0])
+      if nn is None or not s.tf_variants[0].startswith(b"\x0d"):
+        continue
+      last = s.vp + nn + 1
+    else:
+      if not fc.fits(s) or not fc.sub_rows[s.index] or len(fc.sub_rows[s.index][0]) != fc.max_rows(s):
+        continue
+      last = s.vp + fl["n_newline_codes"]
+    if last > fc.rows_cfg:
+      continue
+    t = (tm[1] + tm[2]) / 2
+    try:
+      obs = observe(ISD.from_model(doc, t))
+    except Exception:  # pylint: disable=broad-except
+      continue
+    cands = [o for o in obs if fc.text_match((s.index,), o, "relaxed") is not None]
+    if len(cands) != 1:
+      continue
+    reg = cands[0].region
+    if reg["da"] != "after" or None in (reg["y"], reg["h"]):
+      continue
+    seen.append((s, last, fl["double_height"], reg["y"] + reg["h"]))
+    if len(seen) >= 10:
+      break
+  tol = Fraction(1, 10**6)
+  for (a, la, dha, ya), (b, lb, dhb, yb) in itertools.combinations(seen, 2):
+    if not (dha or dhb):
+      continue
+    fc.ctx.count("cmp:last-row-pairs")
+    if la == lb:
+      fc.ctx.count("cmp:last-row-equal")
+    bad = abs(ya - yb) > tol if la == lb else ((ya - yb) * (la - lb) <= 0)
+    if bad:
+      fc.v("region:double-height-last-row", f"bottom-anchored subtitles SN={a.sn} (VP={a.vp}, last row {la}, {'double' if dha else 'single'} height) and "
+           f"SN={b.sn} (VP={b.vp}, last row {lb}, {'double' if dhb else 'single'} height): region bottoms {float(ya):.4f} % and {float(yb):.4f} % "
+           f"do not follow the last occupied rows")
+
+
 def order_check(fc: FileCheck, doc, interp):
   """Two single-block-shaped subtitles with the same displayAlign and row count: a larger VP must lie strictly lower."""
   from ttconv.isd import ISD
@@ -802,6 +869,7 @@ def order_check(fc: FileCheck, doc, interp):
     seen.append((s, len(rows), reg["da"], anchor))
     if len(seen) >= 8:
       break
+  last_row_check(fc, doc, timing)
   for (a, na, da, ya), (b, nb, db, yb) in itertools.combinations(seen, 2):
     if na != nb or da != db or a.vp == b.vp:
       continue
@@ -1024,7 +1092,11 @@ def run(ctx, p):
     for i in range(p["lo"], p["lo"] + p["n"]):
       rng = ctx.rng("file", i)
       force = {"dfc": G.DFCS[i % 5]} if i % 3 == 0 else None
-      data, ast = G.gen_file(rng, force)
+      if i % 12 == 7:
+        data, ast = G.gen_dh_file(rng)
+        ctx.count("class:double-height-ladder")
+      else:
+        data, ast = G.gen_file(rng, force)
       cfg = G.gen_config(rng, ast)
       fc, viol = evaluate(ctx, data, cfg, f"gen:{i}")
       if len(ctx.samples) < 2 and not viol and len(data) <= 1024 + 3 * 128:
